@@ -43,13 +43,19 @@ def families(facts):
     for d in Q.VISITORS:
         cls = Q.VISITORS[d][0]
         for k in Q.handled_kinds(facts, cls):
-            if k not in Q.OP_KINDS and k != "Call":       # calls: one family per function of the OData table
+            if k in OPSPLIT:
+                fams += [f"visit[{d}][{k}:{o}]" for o in OPSPLIT[k][1]]   # one work unit per operator (parallelism)
+            elif k not in Q.OP_KINDS and k != "Call":       # calls: one family per function of the OData table
                 fams.append(f"visit[{d}][{k}]")
         for fn, (lo, hi) in CALLS(facts).items():
             for n in range(lo, hi + 1):
                 fams.append(f"call[{d}][{fn}/{n}]")
     fams.append("canary")
     return fams
+
+
+OPSPLIT = {"BinOp": ("op", ["Add", "Sub", "Mult", "Div", "Mod"]), "BoolOp": ("op", ["And", "Or"]),
+           "Compare": ("comparator", ["Eq", "NotEq", "Lt", "LtE", "Gt", "GtE", "In"]), "UnaryOp": ("op", ["Not", "USub"])}
 
 
 def CALLS(facts):
@@ -175,6 +181,10 @@ def pre_children(c, dkey, path, node, kind):
     if key not in c:
         c[key] = AllPred(key, U.Seq, lambda t: U.is_node(t, [k for k in handled if k not in Q.OP_KINDS]))
     path.assume(c["shape"](node))
+    if kind == "Compare":
+        # grammar: `common_expr IN list_expr` -- the right operand of `in` is a list
+        path.assume(z3.Implies(U.is_kind("In", U.field("Compare", "comparator", node)),
+                               U.is_kind("List", U.field("Compare", "right", node))))
     for fn, sp in SHAPE[kind].items():
         t = U.field(kind, fn, node)
         if sp in ("expr",) or (isinstance(sp, tuple) and sp[0] in ("kind", "opt")):
@@ -203,7 +213,12 @@ def run_family(facts, fam, tier):
     kindpart = fam[fam.index("[") + 1:]
     dkey = kindpart[:kindpart.index("]")]
     what = kindpart[kindpart.index("][") + 2:-1]
-    return run_one(c, facts, dkey, fam.startswith("call["), what, timeout, "C09", CLAUSES)
+    extra = None
+    if ":" in what and not fam.startswith("call["):
+        what, opk = what.split(":")
+        fld = OPSPLIT[what][0]
+        extra = lambda path, nd: path.assume(U.is_kind(opk, U.field(what, fld, nd)))
+    return run_one(c, facts, dkey, fam.startswith("call["), what, timeout, "C09", CLAUSES, extra_pre=extra)
 
 
 def _rooted_at(term, a):
